@@ -2,6 +2,7 @@ package props
 
 import (
 	"fmt"
+	"go/constant"
 	"go/token"
 	"math/big"
 	"sort"
@@ -131,7 +132,7 @@ func checkC04(r *core.Run) {
 	r.Rule("R-C04-scripts", "for every transaction that is not known-verified every input gets a script verification with the spent output's script and amount and the block's flags; the function returns success only after waiting for all of them and testing the failure counter")
 	r.Rule("R-C04-refusal", "transaction processing reads the UTXO set only; the UTXO commit, the block store 'trusted' write and the tip move happen only when it returned no error, and on error the new tree node is unlinked")
 	r.Explain = "Static: guard/provenance rules over the SSA of the block-connection code; each consensus condition of the statement is located as a branch (constants by value, operands by provenance) whose rejecting edge reaches only error returns; flow/control-dependence rules for the accumulated quantities."
-	r.NotCov = "BIP68 relative lock-times (not implemented in the repository: known finding), the semantics of sigop counting inside scripts, that the UTXO lookups return the right records (C06/C10), arithmetic results for concrete blocks."
+	r.NotCov = "BIP68 relative lock-times (not implemented in the repository: known finding), that the UTXO lookups return the right records (C06/C10), arithmetic results for concrete blocks."
 	p := load(r, core.LoadOpts{})
 	if p == nil {
 		return
@@ -420,6 +421,7 @@ func checkC04(r *core.Run) {
 	// the block's flags are those of its height also on the reorganisation / re-apply paths (shared with C06)
 	c06FlagsAfterHeight(r, p, "R-C04-scripts")
 	c04TrustPerTx(r, p, ct)
+	c04SigopTable(r, p)
 	// the maturity test reads the coinbase flag and height of the spent record: both must survive a disconnect, so the
 	// undo record collected here has to carry every field of the spent record (rule shared with C06)
 	c06UndoRecord(r, p, "R-C04-inputs")
@@ -843,4 +845,148 @@ func c04TrustPerTx(r *core.Run, p *core.Program, ct *ssa.Function) {
 		walk(ph)
 	}
 	r.Check(n >= 1 && bad == "", rule, "trust-decided-per-transaction", p.Pos(ct.Pos()), "the flag guarding the verification spawns is computed afresh for every transaction", bad)
+}
+
+// c04SigopTable: what the script scanner adds to the signature-operation count, decided for every opcode,
+// every preceding opcode and both counting modes by following GetSigOpCount's branches with those values
+// fixed: OP_CHECKSIG(VERIFY) +1; OP_CHECKMULTISIG(VERIFY) +n when counting accurately and the preceding
+// opcode is OP_1..OP_16 (n = 1..16), otherwise +20; OP_RETURN ends the scan; every other opcode +0.
+func c04SigopTable(r *core.Run, p *core.Program) {
+	const rule = "R-C04-sigops"
+	const key = "scanner/increment-table"
+	fn := p.Func("lib/btc.GetSigOpCount")
+	dec := p.Func("lib/btc.DecodeOP_N")
+	if fn == nil || dec == nil || len(fn.Params) != 2 {
+		r.Fail(rule, key, "-", "GetSigOpCount / DecodeOP_N not found")
+		return
+	}
+	var call *ssa.Call
+	for _, c := range an.CallsTo(fn, false, "lib/btc.GetOpcode") {
+		call, _ = c.(*ssa.Call)
+	}
+	if call == nil {
+		r.Fail(rule, key, p.Pos(fn.Pos()), "the scanner does not fetch opcodes with GetOpcode")
+		return
+	}
+	var op ssa.Value
+	var errCmp []*ssa.BinOp
+	for _, ref := range *call.Referrers() {
+		if ex, ok := ref.(*ssa.Extract); ok {
+			switch ex.Index {
+			case 0:
+				op = ex
+			case 3:
+				for _, rr := range *ex.Referrers() {
+					if bo, ok := rr.(*ssa.BinOp); ok && (bo.Op == token.NEQ || bo.Op == token.EQL) {
+						errCmp = append(errCmp, bo)
+					}
+				}
+			}
+		}
+	}
+	var nPhi, lastPhi *ssa.Phi
+	for _, b := range fn.Blocks {
+		for _, ins := range b.Instrs {
+			ph, ok := ins.(*ssa.Phi)
+			if !ok {
+				continue
+			}
+			for _, e := range ph.Edges {
+				if cv, isConv := e.(*ssa.Convert); isConv && cv.X == op {
+					lastPhi = ph
+				}
+			}
+			for _, ref := range *ph.Referrers() {
+				if ret, isRet := ref.(*ssa.Return); isRet && len(ret.Results) == 1 && ret.Results[0] == ssa.Value(ph) {
+					nPhi = ph
+				}
+			}
+		}
+	}
+	if op == nil || nPhi == nil || lastPhi == nil || len(errCmp) == 0 {
+		r.Fail(rule, key, p.Pos(fn.Pos()), "scanner shape not recognised (opcode, count and previous-opcode variables)")
+		return
+	}
+	// DecodeOP_N on OP_1..OP_16
+	for v := int64(0x51); v <= 0x60; v++ {
+		_, rets := an.PReachRet(dec.Blocks[0], an.PEnv{dec.Params[0]: constant.MakeInt64(v)}, nil)
+		if len(rets) != 1 || !rets[fmt.Sprint(v-0x50)] {
+			r.Fail(rule, key, p.Pos(dec.Pos()), fmt.Sprintf("DecodeOP_N(0x%02x) is %s, expected %d", v, an.TagList(rets), v-0x50))
+			return
+		}
+	}
+	header := nPhi.Block()
+	lasts := []int64{0x00, 0x4f, 0x50, 0x51, 0x52, 0x5f, 0x60, 0x61, 0xae, 0xff}
+	cases := 0
+	var bad []string
+	for k := int64(0); k < 256 && len(bad) < 4; k++ {
+		ls := lasts
+		if k == 0xae || k == 0xaf {
+			ls = nil
+			for l := int64(0); l < 256; l++ {
+				ls = append(ls, l)
+			}
+		}
+		for _, l := range ls {
+			for _, acc := range []bool{false, true} {
+				env := an.PEnv{op: constant.MakeInt64(k), lastPhi: constant.MakeInt64(l), fn.Params[1]: constant.MakeBool(acc)}
+				for _, c := range errCmp {
+					env[c] = constant.MakeBool(c.Op == token.EQL)
+				}
+				cases++
+				reach := an.PReach(call.Block(), env, func(b *ssa.BasicBlock) bool { return b == header })
+				got := "ends the scan"
+				if reach[header] {
+					sum, n, okv := int64(0), 0, true
+					for b := range reach {
+						for _, ins := range b.Instrs {
+							bo, ok := ins.(*ssa.BinOp)
+							if !ok || bo.Op != token.ADD || bo.X != ssa.Value(nPhi) {
+								continue
+							}
+							n++
+							if c, ok := an.PEval(bo.Y, env); ok {
+								v, _ := constant.Int64Val(c)
+								sum += v
+							} else if dc, ok := c17StripConv(bo.Y).(*ssa.Call); ok && an.CallName(dc) == "lib/btc.DecodeOP_N" {
+								if a, ok := an.PEval(dc.Call.Args[0], env); ok {
+									v, _ := constant.Int64Val(a)
+									if v != 0 {
+										v -= 0x50
+									}
+									sum += v
+								} else {
+									okv = false
+								}
+							} else {
+								okv = false
+							}
+						}
+					}
+					switch {
+					case !okv || n > 1:
+						got = "an amount that is not decided by opcode, previous opcode and mode"
+					default:
+						got = fmt.Sprintf("+%d", sum)
+					}
+				}
+				want := "+0"
+				switch {
+				case k == 0x6a:
+					want = "ends the scan"
+				case k == 0xac || k == 0xad:
+					want = "+1"
+				case k == 0xae || k == 0xaf:
+					want = "+20"
+					if acc && l >= 0x51 && l <= 0x60 {
+						want = fmt.Sprintf("+%d", l-0x50)
+					}
+				}
+				if got != want {
+					bad = append(bad, fmt.Sprintf("opcode 0x%02x after 0x%02x, accurate=%v: %s, consensus %s", k, l, acc, got, want))
+				}
+			}
+		}
+	}
+	r.Check(len(bad) == 0, rule, key, p.Pos(fn.Pos()), fmt.Sprintf("%d (opcode, previous opcode, mode) cases evaluated", cases), strings.Join(bad, "; "))
 }
